@@ -195,11 +195,11 @@ Section Eval.
         cbn [post extends]. exists SV, SC. split4; auto with lmmt.
     - (* XMatch *)
       destruct (tc an G e) as [ts|] eqn:E1; try discriminate.
-      change (match tc_arms an false G ts arms with
+      change (match tc_arms an G ts arms with
               | Some (t0 :: tl) => if forallb (an_teq an t0) tl && exhaustive ts (map fst arms) then Some t0 else None
               | _ => None
               end = Some t) in Htc.
-      destruct (tc_arms an false G ts arms) as [[|t0 tl]|] eqn:Ea; try discriminate.
+      destruct (tc_arms an G ts arms) as [[|t0 tl]|] eqn:Ea; try discriminate.
       destruct (forallb (an_teq an t0) tl && exhaustive ts (map fst arms)) eqn:Ec; try discriminate. inversion Htc; subst t0.
       apply andb_true_iff in Ec. destruct Ec as [Eall Eex].
       eapply res_ok_bind; [eapply Hrec; [exact E1|eauto|eauto]|].
@@ -207,7 +207,7 @@ Section Eval.
       destruct (find_arm_typed an G ts arms (t :: tl) SC1 v Ea Eex Hv1) as (i & m & body & Ef & En & Et).
       rewrite Ef. cbn [rbind].
       (* the arm found is typed, its body has type t *)
-      pose proof (tc_arms_inv an false G ts arms _ Ea) as Harms.
+      pose proof (tc_arms_inv an G ts arms _ Ea) as Harms.
       destruct (Forall2_nth_l _ _ _ _ _ _ _ Harms En) as (tb & Etb & G' & Ep & Eb). cbn [fst snd] in Ep, Eb.
       assert (Htb : tb = t).
       { destruct i as [|i]; cbn in Etb; [inversion Etb; reflexivity|].
